@@ -247,3 +247,121 @@ class BuildSchemaIndex(Contract):
 
 
 CONTRACTS = [BuildColumnsIndex, BuildSchemaIndex]
+
+
+# ---------------------------------------------------------------------------------------------------------
+# polars twin
+# ---------------------------------------------------------------------------------------------------------
+class PolarsBuildColumns(Contract):
+    """pandera.polars DataFrameModel._build_columns: one Column per field under its public name, built from
+    field.column_properties(dtype, required=not Optional, checks=<the checks collected for this field>, name=<public name>);
+    dtype: the raw annotation if it is a pandera polars DataType class the engine accepts, else the native type the engine resolves it
+    to, else (engine rejects) the annotation's default_dtype / argument.  check_name=False on a column is a SchemaInitError."""
+
+    target = "pandera.api.polars.model:DataFrameModel._build_columns"
+    raises = (SchemaInitError,)
+    split = {"n": [1, 2], "engine": ["accepts_pandera_class", "accepts_other", "TypeError", "ValueError"]}
+
+    def setup(self, I):
+        import inspect
+
+        import pandera.api.polars.model as M
+        from pandera.api.polars.components import Column
+
+        how = self.fixed.get("engine", "accepts_other")
+
+        def engine_dtype(I_, cls_, x):
+            if how in ("TypeError", "ValueError"):
+                raise PyExc(I_.make_exc(TypeError if how == "TypeError" else ValueError, "not understood"))
+            r = Obj(None, "engine_dtype", pre=True)
+            nt = Obj(None, f"native_type_of({getattr(x, 'name', x)})", pre=True)
+            r.attrs["type"] = nt
+            r.attrs0["type"] = nt
+            cur().ghost.setdefault("resolved", {})[id(x)] = nt
+            return r
+
+        f = M.pe.Engine.__dict__.get("dtype")
+        I.models[id(f.__func__ if hasattr(f, "__func__") else f)] = engine_dtype
+        # `inspect.isclass(raw) and issubclass(raw, pe.DataType)`: decided by the case
+        I.models[id(inspect.isclass)] = lambda I_, x: how == "accepts_pandera_class"
+        import builtins
+
+        orig_issub = I.models.get(id(builtins.issubclass))
+        I.models[id(builtins.issubclass)] = lambda I_, a, b: True if isinstance(a, Obj) else (orig_issub(I_, a, b) if orig_issub else issubclass(a, b))
+
+        def ctor(I_, *a, **kw):
+            o = Obj(None, f"Column#{len(cur().ghost.setdefault('built', []))}", pre=False)
+            o.attrs["__kwargs__"] = dict(kw)
+            o.attrs["__args__"] = tuple(a)
+            cur().ghost["built"].append(o)
+            return o
+
+        I.models[id(Column)] = ctor
+
+    def make_args(self):
+        from pandera.api.polars.model import DataFrameModel
+
+        p = cur()
+        fields, checks = DictObj(), DictObj()
+        meta = []
+        for k in range(self.fixed.get("n", 1)):
+            attr = f"f{k}"
+            alias = p.choose([("no_alias", None), ("alias", None)], f"alias({attr})") == 1
+            public = f"public_{attr}" if alias else attr
+            raw = Obj(None, f"{attr}.raw_annotation", pre=True)
+            arg = Obj(None, f"{attr}.arg", pre=True)
+            has_default = p.choose([("no_default_dtype", None), ("default_dtype", None)], f"default_dtype({attr})") == 1
+            dflt = Obj(None, f"{attr}.default_dtype", pre=True) if has_default else None
+            optional = p.choose([("required", None), ("optional", None)], f"optional({attr})") == 1
+            ann = Obj(None, f"{attr}.annotation", pre=True)
+            for a, v in (("origin", None), ("raw_annotation", raw), ("arg", arg), ("metadata", None), ("default_dtype", dflt), ("optional", optional)):
+                ann.attrs[a] = v
+                ann.attrs0[a] = v
+            cn = [None, True, False][p.choose([("check_name=None", None), ("check_name=True", None), ("check_name=False", None)], f"check_name({attr})")]
+            fi = T.Ref(FieldInfo, column_properties=T.Callback(T.Lazy(lambda n: DictObj({"props_of": n})), raises=False)).fresh(f"{attr}.field")
+            for a, v in (("name", public), ("check_name", cn), ("dtype_kwargs", None)):
+                fi.attrs[a] = v
+                fi.attrs0[a] = v
+            dict.__setitem__(fields, attr, (ann, fi))
+            has_checks = p.choose([("no_checks", None), ("checks", None)], f"checks({attr})") == 1
+            if has_checks:
+                dict.__setitem__(checks, attr, ListObj([SAny(name=f"check_of_{attr}")]))
+            meta.append(dict(attr=attr, public=public, field=fi, raw=raw, arg=arg, default=dflt, check_name=cn, has_checks=has_checks, optional=optional))
+        fields.pre = checks.pre = True
+        p.ghost["meta"] = meta
+        return {"cls": Obj(DataFrameModel, "cls", pre=True), "fields": fields, "checks": checks}
+
+    def call_target(self, I, fn, a):
+        return I.call(fn, [a["cls"], a["fields"], a["checks"]], {})
+
+    def _dtype(self, m):
+        how = self.fixed.get("engine", "accepts_other")
+        if how == "accepts_pandera_class":
+            return m["raw"]
+        if how == "accepts_other":
+            return cur().ghost.get("resolved", {}).get(id(m["raw"]))
+        return m["default"] if m["default"] is not None else m["arg"]
+
+    def ensures(self, result, old, cls, fields, checks):
+        meta = cur().ghost["meta"]
+        out = {"returns_only_when_no_column_forbids_its_name_check": all(m["check_name"] is not False for m in meta)}
+        out["one_column_per_field_under_its_public_name_in_order"] = isinstance(result, dict) and list(result) == [m["public"] for m in meta]
+        ok = True
+        for m in meta:
+            cb = fld0(m["field"], "column_properties")
+            good = len(cb.calls) == 1
+            if good:
+                (args, kw) = cb.calls[0]
+                good = len(args) == 1 and args[0] is self._dtype(m) and kw.get("required") is (not m["optional"]) and kw.get("name") == m["public"] \
+                    and ((kw.get("checks") is dict.get(checks, m["attr"])) if m["has_checks"] else (list(kw.get("checks")) == []))
+                col = result.get(m["public"]) if isinstance(result, dict) else None
+                good = good and isinstance(col, Obj) and col.attrs.get("__kwargs__", {}).get("props_of") is not None and not col.attrs.get("__args__")
+            ok = ok and good
+        out["column_gets_dtype_required_checks_name"] = ok
+        return out
+
+    def on_raise(self, exc, old, cls, fields, checks):
+        return {"init_error_only_for_check_name_false": any(m["check_name"] is False for m in cur().ghost["meta"])}
+
+
+CONTRACTS.append(PolarsBuildColumns)
